@@ -259,6 +259,9 @@ def gen_str_elem(rng, what, stag='<', etag='>'):
         j = rng.randint(i, len(base))
         k = rng.randint(j, len(base))
         l = rng.randint(k, len(base))
+        if rng.random() < 0.4:
+            i, l = 0, len(base)        # the element begins with a segment and ends with another one
+            j = min(max(j, i), k)
         return ('S', base[:i] + wrap_tags(re.escape(base[i:j]).replace(stag, '.').replace(etag, '.'), stag, etag) +
                 base[j:k] + wrap_tags(pick(rng, ['.*', re.escape(base[k:l]).replace(stag, '.').replace(etag, '.'), '.+']), stag, etag) + base[l:])
     if r < 0.8:
